@@ -8,7 +8,7 @@ PROPERTY = {
                   'xdoctest.core:parse_google_docstr_examples#blocks', 'xdoctest.core:parse_auto_docstr_examples#dispatch',
                   'xdoctest.core:parse_freeform_docstr_examples#offsets', 'xdoctest.docstr.docscrape_google:split_google_docblocks',
                   'xdoctest.core:parse_google_docstr_examples', 'xdoctest.core:parse_freeform_docstr_examples'],
-    'extra': ['bounded.c07_dispatch.run', 'bounded.c07_tree.run'],
+    'extra': ['bounded.c07_dispatch.run', 'bounded.c07_tree.run', 'bounded.c07_collect.run'],
     'clauses': {
         'P': ['google style: exactly the blocks labelled Example / Doctest / Script / Benchmark become doctests, in order, numbered 0, 1, ..; '
               'freeform (asone): at most one doctest per docstring, exactly when some part is kept; auto: the google blocks when there are any, else freeform',
@@ -20,7 +20,8 @@ PROPERTY = {
               '__name__ with "__main__"); every other if is entered exactly once',
               'package_modpaths: in a directory without __init__.py (once checking is on) nothing is yielded and the walk below it is pruned; '
               'inside the package every subdirectory is checked'],
-        'B': ['the real package_modpaths on scratch trees: every assignment of {sub-package, plain directory, module} to the entries of a package root: exactly the reachable modules and __init__ files, each once (bounded/c07_tree.py)',
+        'B': ['the real parse_doctestables (static analysis) on generated modules whose collectable definitions are known by construction (functions, async functions, classes, plain/static/class methods, property getters and setters, decorated definitions, nested functions and classes, definitions under an ordinary if and under the __main__ guard) x 3 styles: exactly the expected identifiers, each once (bounded/c07_collect.py)',
+              'the real package_modpaths on scratch trees: every assignment of {sub-package, plain directory, module} to the entries of a package root: exactly the reachable modules and __init__ files, each once (bounded/c07_tree.py)',
               'handler dispatch: async functions are handled by the function handler (exact structural check of the class)'],
         'T': ['ast.NodeVisitor.generic_visit visits every child once in order', 'os.walk honours in-place pruning',
               '_get_docstring / _workaround_func_lineno (line numbers: C08)'],
